@@ -169,6 +169,9 @@ type vKit struct {
 	acks     []vAck
 	nacks    []int64
 	minISR   int
+	// minVia: "server" = clustering.min.insync.replicas of every server, "stream" = the stream's own
+	// override in its CreateStream config (the server setting stays at its default 1)
+	minVia string
 	fetchMax int
 	batch    int
 	gapMs    int
@@ -274,6 +277,9 @@ func (k *vKit) newServer(id string) *Server {
 	config.NATS.Servers = []string{k.url}
 	config.Telemetry.Enabled = false
 	config.Clustering.MinISR = k.minISR
+	if k.minVia == "stream" {
+		config.Clustering.MinISR = 1
+	}
 	config.Clustering.ReplicaMaxLagTime = 10 * time.Hour
 	if k.lagMs > 0 {
 		// timed scenarios: the leader's own health check runs with a real, short lag window
@@ -335,10 +341,14 @@ func (k *vKit) create() {
 		k.isr[id] = true
 	}
 	k.leader = "a"
+	var sc *proto.StreamConfig
+	if k.minVia == "stream" {
+		sc = &proto.StreamConfig{MinIsr: &proto.NullableInt32{Value: int32(k.minISR)}}
+	}
 	op := k.commit(&proto.RaftLog{
 		Op: proto.Op_CREATE_STREAM,
 		CreateStreamOp: &proto.CreateStreamOp{Stream: &proto.Stream{
-			Name: k.stream, Subject: k.subject, CreationTimestamp: time.Now().UnixNano(),
+			Name: k.stream, Subject: k.subject, CreationTimestamp: time.Now().UnixNano(), Config: sc,
 			Partitions: []*proto.Partition{{
 				Subject: k.subject, Stream: k.stream, Id: 0, ReplicationFactor: int32(len(k.ids)),
 				Replicas: append([]string{}, k.ids...), Isr: append([]string{}, k.ids...), Leader: "a",
@@ -1012,6 +1022,7 @@ func TestVerifReplication(t *testing.T) {
 		}
 		k := newVKit(t, ns, gate, b.ID, int(vIntDef(b.Cfg, "minISR", 2)), int(vIntDef(b.Cfg, "fetchMax", 2)), ids, int(vIntDef(b.Cfg, "batch", 1)))
 		k.gapMs = int(vIntDef(b.Cfg, "gapMs", 0))
+		k.minVia = vStrDef(b.Cfg, "minVia", "server")
 		k.lagMs = int(vIntDef(b.Cfg, "lagMs", 0))
 		k.create()
 		tw.Emit(vRepEvent{T: b.ID, A: "Open", Args: map[string]interface{}{}, St: k.state(),
